@@ -41,6 +41,51 @@ theorem c05_t_paginateIDs (ids : List Nat) (offset size : Nat) :
       intro hc
       omega
 
+/-- `calcEnsuredIDsCount(ids, remainingFracs, order)` = `Merge.calcEnsured`: the IDs are the model's keys (their MID is
+`midOf`), a fraction's `Info()` gives its `from_` / `to_`, `order.IsReverse()` is the translated `DocsOrder.IsReverse`
+(`order = 1`); the function never panics, whatever the lists -/
+theorem c05_t_calcEnsuredIDsCount (ids : List Nat) (rest : List Frac) (order : Int) :
+    T.calcEnsuredIDsCount ids rest order (fun f => f) (fun k => (midOf k : Int)) (fun f => (f.from_ : Int)) (fun f => (f.to_ : Int))
+      = some (calcEnsured (decide (order ≠ 1)) ids rest : Int) := by
+  unfold T.calcEnsuredIDsCount calcEnsured T.DocsOrder_IsReverse
+  cases rest with
+  | nil => simp [len]
+  | cons f fs =>
+    have hl : ¬ (len (f :: fs) = 0) := by simp [len]; omega
+    have hi : idx (f :: fs) 0 = some f := by simp [idx]
+    simp only [if_neg hl, hi, Option.bind_some]
+    have hlen : len ids = (ids.length : Int) := rfl
+    by_cases ho : order = 1
+    · have s := sortSearch_eq
+        (fun i => (idx ids i).bind fun v1 => some (decide ((midOf v1 : Int) ≥ (f.from_ : Int))))
+        (fun i => decide (midOf (ids.getD i 0) ≥ f.from_)) ids.length (by
+          intro i hi
+          simp only [idx_natCast, List.getElem?_eq_getElem hi, Option.bind_some, getD_of_lt _ _ _ hi, Option.some.injEq]
+          by_cases hc : midOf ids[i] ≥ f.from_
+          · have : (midOf ids[i] : Int) ≥ (f.from_ : Int) := by omega
+            simp [hc, this]
+          · have : ¬ (midOf ids[i] : Int) ≥ (f.from_ : Int) := by omega
+            simp [hc, this])
+      subst ho
+      have c1 : (decide ((1 : Int) = 1)) = true := by decide
+      have c2 : decide ((1 : Int) ≠ 1) = false := by decide
+      rw [if_pos c1, hlen, s, c2]
+      simp only [Option.bind_some, Bool.false_eq_true, if_false]
+    · have s := sortSearch_eq
+        (fun i => (idx ids i).bind fun v3 => some (decide ((midOf v3 : Int) ≤ (f.to_ : Int))))
+        (fun i => decide (midOf (ids.getD i 0) ≤ f.to_)) ids.length (by
+          intro i hi
+          simp only [idx_natCast, List.getElem?_eq_getElem hi, Option.bind_some, getD_of_lt _ _ _ hi, Option.some.injEq]
+          by_cases hc : midOf ids[i] ≤ f.to_
+          · have : (midOf ids[i] : Int) ≤ (f.to_ : Int) := by omega
+            simp [hc, this]
+          · have : ¬ (midOf ids[i] : Int) ≤ (f.to_ : Int) := by omega
+            simp [hc, this])
+      have c1 : ¬ ((decide (order = 1)) = true) := by simpa using ho
+      have c2 : decide (order ≠ 1) = true := by simpa using ho
+      rw [if_neg c1, hlen, s, c2]
+      simp only [Option.bind_some, if_true]
+
 /-- a negative offset panics (`ids[offset:]`) -/
 theorem c05_t_paginateIDs_negative (ids : List Nat) (offset size : Int) (h : offset < 0) :
     T.Ingestor_paginateIDs ids offset size = none := by
